@@ -20,5 +20,6 @@ INVARIANT NoViolation
 INVARIANT Partition
 INVARIANT QuietOk
 INVARIANT NoPendingLeak
+INVARIANT NeverEmptyWithIdle
 INVARIANT Structural
 CHECK_DEADLOCK FALSE
